@@ -187,7 +187,7 @@ class Gen:
                               ["Struct", [["p", ["Bytes", g]], ["q", ["BytesInteger", g, True, False]]]]])
             return ["ProcessRotateLeft", amount, g, inner]
         if c < 0.886 and tail and not self.strict and self.fragment == "full":
-            return self.select_family() if r.random() < 0.5 else self.lazy_family(depth)
+            return r.choice([self.select_family, lambda: self.lazy_family(depth), self.region_family, self.root_family])()
         if c < 0.90:
             return ["Optional", self.optional_inner()] if (tail and not self.strict) else ["Hex", self.int_leaf()]
         if c < 0.94:
@@ -231,6 +231,39 @@ class Gen:
                 ms.append(["z%d" % i, r.choice([self.fixed_leaf(), pre(), ["CString", "utf8"], ["name", "VarInt"], ["Struct", [["a", B], ["b", pre()]]]])])
             return ["LazyStruct", ms]
         return ["Struct", [["h", B], ["z", ["Lazy", r.choice([pre(), self.fixed_leaf(), ["Array", 2, ["name", "Int16ub"]]])]], ["t", B]]]
+
+    def region_family(self):
+        """regions delimited from their end, tunnels whose inner format refers to the enclosing scope, anonymous members that build
+        from nothing behind a selector - always behind a header so that nothing starts at offset 0"""
+        r = self.rng
+        B = ["name", "Byte"]
+        GB = ["name", "GreedyBytes"]
+        c = r.random()
+        if c < 0.35:
+            k = r.randint(1, 3)
+            # (reparse_safe: only payloads that take every byte of their region, only regions without padding - anything else
+            #  legitimately moves the end-relative footer when the parsed value is built again)
+            body = ["Struct", [["payload", ["OffsettedEnd", -k, GB if self.reparse_safe else r.choice([GB, ["GreedyRange", ["name", "Int16ub"]], ["GreedyString", "utf8"]])]], ["crc", ["Bytes", k]]]]
+            wraps = [["Prefixed", B, body, False], ["Prefixed", ["name", "Int16ul"], ["Struct", [["x", B], ["inner", body]]], True]] + ([] if self.reparse_safe else [["FixedSized", 12, body]])
+            return ["Struct", [["h", ["name", "Int16ub"]], ["blk", r.choice(wraps)]]]
+        if c < 0.7:
+            inner = r.choice([["Bytes", ["this", "n0"]], ["Array", ["this", "n0"], ["name", "Int16ub"]], ["Struct", [["a", B], ["d", ["Bytes", ["this", "_", "n0"]]]]],
+                              ["IfThenElse", ["bin", ">", ["this", "n0"], 1], ["name", "Int32ub"], B], GB])
+            return ["Struct", [["n0", B], ["z", ["Prefixed", r.choice([B, ["name", "VarInt"]]), ["Compressed", inner, r.choice(["zlib", "zlib", "bzip2"]), r.choice([None, None, 1, 9])], False]], ["t", B]]]
+        # an anonymous Switch all of whose branches build from nothing
+        return ["Struct", [["t0", B], [None, ["Switch", ["this", "t0"], [[0, ["Padding", 1]], [1, ["Const", tag(b"x"), None]], [2, ["Padding", 2, tag(b"*")]]], r.choice([None, ["name", "Pass"]])]], ["v", B]]]
+
+    def root_family(self):
+        """references to the outermost scope from three and more levels down, through every scope-opening construct"""
+        r = self.rng
+        B = ["name", "Byte"]
+        R = ["this", "_root", "n0"]
+        leaf = lambda: r.choice([["Bytes", R], ["Array", R, B], ["If", ["bin", ">=", R, 1], ["name", "Int16ub"]], ["Switch", R, [[0, B], [1, ["name", "Int16ub"]]], ["Bytes", 3]],
+                                 ["PaddedString", ["bin", "+", R, 1], "ascii"]])
+        lvl3 = ["Struct", [["p", B], ["q", leaf()]]]
+        mid = r.choice([["Struct", [["m", B], ["s", lvl3]]], ["Sequence", [[None, B], ["s", lvl3]]], ["PrefixedArray", B, lvl3], ["Array", 2, ["Struct", [["s", lvl3]]]],
+                        ["FocusedSeq", "s", [[None, ["Const", tag(b"\x01"), None]], ["s", lvl3]]], ["Prefixed", B, ["Struct", [["s", lvl3], ["r", ["PrefixedArray", B, ["Struct", [["e", leaf()]]]]]]], False]])
+        return ["Struct", [["n0", B], ["a", mid], ["t", leaf()]]]
 
     def optional_inner(self):
         # Optional at the end of a region: alternatives that cannot be confused with "nothing"
@@ -568,6 +601,18 @@ def genval(r, rng, sc, name=None):
         return genval(a[1], rng, sc)
     if k == "ProcessRotateLeft":
         return genval(a[2], rng, sc)
+    if k == "OffsettedEnd":
+        return genval(a[1], rng, sc)
+    if k == "Compressed":
+        return genval(a[0], rng, sc)
+    if k == "GreedyString":
+        return rng.choice(["", "ab", "hello"])
+    if k == "FocusedSeq":
+        s2 = M.new_scope(sc)
+        for nm, m in a[1]:
+            if nm == a[0]:
+                return genval(m, rng, s2, nm)
+        return None
     if k == "NullTerminated":
         return genval(a[0], rng, sc)
     raise M.ModelGap("genval " + k)
